@@ -522,7 +522,13 @@ class _Run:
             return FRESHV
         if isinstance(e, ast.NamedExpr):
             return self.expr(e.value, env)
-        if isinstance(e, (ast.Await, ast.Yield, ast.YieldFrom)):
+        if isinstance(e, (ast.Yield, ast.YieldFrom)):
+            # generator body: the yielded value is evaluated (its effects are attributed to the call - an over-approximation: they happen
+            # when the generator is advanced); what `send` passes in is unknown
+            if e.value is not None:
+                self.expr(e.value, env)
+            return FRESHV
+        if isinstance(e, ast.Await):
             raise Inconclusive("EFF: %s in %s" % (type(e).__name__, self.f.qual))
         raise Inconclusive("EFF: expression kind %s in %s" % (type(e).__name__, self.f.qual))
 
